@@ -136,11 +136,13 @@ func runC19Interleave(env *Env, rc *RunCtx) {
 	plans := make([][]readPlan, R)
 	for r := range plans {
 		for i := 0; i < M; i++ {
-			switch t.Weighted(4, 2, 3) {
+			switch t.Weighted(3, 2, 3, 2) {
 			case 0:
 				plans[r] = append(plans[r], readPlan{"list"})
 			case 1:
 				plans[r] = append(plans[r], readPlan{"rest"})
+			case 3:
+				plans[r] = append(plans[r], readPlan{"list-slow"})
 			default:
 				plans[r] = append(plans[r], readPlan{"get:" + nameList[t.Choose(len(nameList))]})
 			}
@@ -220,6 +222,26 @@ func runC19Interleave(env *Env, rc *RunCtx) {
 							if err != nil {
 								x.obs.Names = "error: " + err.Error()
 							} else {
+								x.obs.Names = fmt.Sprint(names)
+							}
+						case p.acc == "list-slow":
+							// a reader that looks at the answer a little later (as a handler that
+							// encodes it does): what Namespaces() returned is a snapshot and must
+							// not change under the reader when a reload happens meanwhile
+							nn, err := m.Namespaces(ctx)
+							ls.Yield("reader holds the listing")
+							if err != nil {
+								x.obs.Names = "error: " + err.Error()
+							} else {
+								var names []string
+								for _, n := range nn {
+									if n == nil {
+										names = append(names, "<nil>")
+										continue
+									}
+									names = append(names, n.Name)
+								}
+								sort.Strings(names)
 								x.obs.Names = fmt.Sprint(names)
 							}
 						case p.acc == "rest":
